@@ -15,12 +15,13 @@ import (
 
 // Opts tunes the generator.
 type Opts struct {
-	MaxTuples     int
-	MaxIDs        int  // object ids 0..MaxIDs-1
-	Conditions    bool // allow conditions
-	Leftovers     bool // allow tuples that are not valid for the model
-	Exclusion     bool // allow "but not"
-	Intersections bool
+	ForceLinkConds bool // family worlds: always add a condition and offer it on the link (parent / member userset) restrictions
+	MaxTuples      int
+	MaxIDs         int  // object ids 0..MaxIDs-1
+	Conditions     bool // allow conditions
+	Leftovers      bool // allow tuples that are not valid for the model
+	Exclusion      bool // allow "but not"
+	Intersections  bool
 }
 
 func DefaultOpts() Opts {
